@@ -110,6 +110,10 @@ pub trait Sys: Sized + 'static {
     fn double_spent(_a: &Self::S, _b: &Self::S) -> bool {
         false
     }
+    /// where the double spend sits (suffix of the failure kind; "" = top level)
+    fn double_spent_site(_a: &Self::S, _b: &Self::S) -> &'static str {
+        ""
+    }
     // ---- reset_remove (C18)
     fn reset_remove(_s: &mut Self::S, _c: &crdts::VClock<u8>) {
         unimplemented!()
